@@ -52,8 +52,10 @@ family(
         'm12': dict(build='mounts-files', mounts=[dict(ns='n1', values={'x': 1}), dict(ns='n2', values={'x': 2})]),
         'c21': dict(build='mounts-ctx', mounts=[dict(ns='n1', values={'x': 2}), dict(ns='n2', values={'x': 1})]),
         'c11': dict(build='mounts-ctx', mounts=[dict(ns='n1', values={'x': 1}), dict(ns='n2', values={'x': 1})]),
+        # the pipeline is a PART of a multi-config YAML file, mounted twice by '#part as ns' references
+        'p21': dict(build='mounts-ctx-multi', mounts=[dict(ns='n1', values={'x': 2}), dict(ns='n2', values={'x': 1})]),
     },
-    lists=[['u1'], ['m12'], ['c21'], ['c11'], ['u1', 'm12']],
+    lists=[['u1'], ['m12'], ['c21'], ['c11'], ['p21'], ['u1', 'm12'], ['u1', 'p21']],
 )
 
 # ---- diamond with groups and a by-name / InputTaskParameter wiring
@@ -203,7 +205,7 @@ def config_name(rcname, rc, i):
     """the name of the config that declares the tasks of mount i (as build_config realises it)"""
     b = rc['build']
     return {'dict': rcname, 'file': rcname, 'context': f'{rcname}_pipe', 'mounts-files': f'{rcname}_m{i}',
-            'mounts-ctx': f'{rcname}_pipe', 'uses-common': rcname}[b]
+            'mounts-ctx': f'{rcname}_pipe', 'mounts-ctx-multi': f'{rcname}#pipe', 'uses-common': rcname}[b]
 
 
 def ref_tree(fam, res, node):
@@ -344,6 +346,14 @@ def build_config(fam, rcname, base_dir, workdir, variant=0):
         root = workdir / f'{rcname}.json'
         root.write_text(json.dumps({'uses': uses}))
         return Config(base_dir, root)
+    if build == 'mounts-ctx-multi':
+        import yaml
+        root = workdir / f'{rcname}.yaml'
+        root.write_text(yaml.safe_dump({'configs': {
+            'main': {'main_part': True, 'uses': [f'#pipe as {m["ns"]}' for m in rc['mounts']]},
+            'pipe': {'tasks': strings, 'x': 0}}}, sort_keys=False))
+        ctx = {'for_namespaces': {m['ns']: json.loads(json.dumps(m['values'])) for m in rc['mounts']}}
+        return Config(base_dir, root, context=ctx)
     if build == 'mounts-ctx':
         pipe = workdir / f'{rcname}_pipe.json'
         pipe.write_text(json.dumps({'tasks': strings}))
